@@ -93,6 +93,8 @@ let model kind input : string = guard (fun () ->
   match kind, commas input with
   | "MASTER", [v; s] -> res (m_master (unhexl v) (unhexl s))
   | "CHILD", [f; i] -> res (m_child (dec_fields f) (z_of_string i))
+  | "OBJ", [f; i; _] -> res (m_child (dec_fields f) (z_of_string i))   (* keys are values: what other objects did is irrelevant *)
+  | "OBJN", [f; _] -> res (m_neuter (dec_fields f))
   | "NEUTER", [f] -> res (m_neuter (dec_fields f))
   | "STRING", [f] -> "ok " ^ hexl (m_string (dec_fields f))
   | "PARSE", [_; s] -> res (m_parse (unhexl s))
@@ -122,6 +124,8 @@ let spec kind input : string = guard (fun () ->
   match kind, commas input with
   | "MASTER", [v; s] -> res_x (s_master (unhexl v) (unhexl s))
   | "CHILD", [f; i] -> with_abs (fun x -> res_x (s_ckd x (z_of_string i))) (dec_fields f)
+  | "OBJ", [f; i; _] -> with_abs (fun x -> res_x (s_ckd x (z_of_string i))) (dec_fields f)
+  | "OBJN", [f; _] -> with_abs (fun x -> res_x (s_neuter x)) (dec_fields f)
   | "NEUTER", [f] -> with_abs (fun x -> res_x (s_neuter x)) (dec_fields f)
   | "STRING", [f] -> with_abs (fun x -> "ok " ^ hexl (s_string x)) (dec_fields f)
   | "PARSE", [_; s] -> res_x (s_parse (unhexl s))
